@@ -109,6 +109,10 @@ type VerifScript struct {
 	Ret    string   `json:"ret"`
 	Events int      `json:"events"`
 	Iops   string   `json:"iops"` // internal operations the call reports (empty: none)
+	// Multi: the script stands for the commands of a MULTICALL transaction. The real VM runs its built-in
+	// multicall code on a MULTICALL tx (the "contract" is the sender's own account, no storage of its own);
+	// the stub does so only for a payload that says so - any other MULTICALL payload finds no code, as before.
+	Multi bool `json:"multi"`
 }
 
 type stubVmErr struct{ s string }
@@ -126,6 +130,10 @@ func runScript(contractState *statedb.ContractState, payload, contractAddress []
 	fee, ok := new(big.Int).SetString(sc.Fee, 10)
 	if !ok {
 		fee = big.NewInt(0)
+	}
+	if contractState.IsMultiCall() {
+		// a multicall has no storage of its own
+		sc.Sets, sc.Dels = nil, nil
 	}
 	switch sc.Err {
 	case "negfee":
@@ -196,6 +204,13 @@ func runScript(contractState *statedb.ContractState, payload, contractAddress []
 }
 
 func Call(contractState *statedb.ContractState, payload, contractAddress []byte, ctx *vmContext) (string, []*types.Event, string, *big.Int, error) {
+	if contractState.IsMultiCall() {
+		var sc VerifScript
+		if len(payload) > 0 && json.Unmarshal(payload, &sc) == nil && sc.Multi {
+			return runScript(contractState, payload, contractAddress, ctx)
+		}
+		return "", nil, "", big.NewInt(0), &stubVmErr{"not found contract"}
+	}
 	code, err := contractState.GetCode()
 	if err != nil || len(code) == 0 {
 		return "", nil, "", big.NewInt(0), &stubVmErr{"not found contract"}
